@@ -295,11 +295,30 @@ func (p *grpcConnectionPool) newConnection(ctx context.Context, target *route.Ta
 
 	conn, err := grpc.DialContext(ctx, target.URL.Host, opts...)
 
-	if err == nil {
-		p.Set(target, conn)
+	if err != nil {
+		return conn, err
 	}
 
-	return conn, err
+	return p.setIfAbsent(target, conn), nil
+}
+
+// setIfAbsent stores conn as the connection for target and returns it,
+// unless another call has stored a usable connection for the same target
+// since Get looked. Then that connection is returned and conn, which
+// nothing has used yet, is closed. This keeps one connection per target
+// when several calls for a new target arrive at the same time.
+func (p *grpcConnectionPool) setIfAbsent(target *route.Target, conn *grpc.ClientConn) *grpc.ClientConn {
+	p.lock.Lock()
+	defer p.lock.Unlock()
+
+	key := makeGRPCTargetKey(target)
+	if cur := p.connections[key]; cur != nil && cur != conn && cur.GetState() != connectivity.Shutdown {
+		conn.Close()
+		return cur
+	}
+
+	p.connections[key] = conn
+	return conn
 }
 
 func (p *grpcConnectionPool) Set(target *route.Target, conn *grpc.ClientConn) {
